@@ -15,8 +15,8 @@ RULE = (
     "an odd number of triple quotes, a line continuation or a decorator. Distinct = SHA-1 of the string."
 )
 TIERS = {
-    "quick": {"shards": 8, "exh_len": 5, "hyp": 400, "files": 12, "trunc_step": 0, "budget_s": 200, "claims_exhaustive": False},
-    "thorough": {"shards": 16, "exh_len": 6, "hyp": 6000, "files": 400, "trunc_step": 997, "budget_s": 2400, "claims_exhaustive": False},
+    "quick": {"shards": 8, "exh_len": 5, "hyp": 400, "files": 12, "trunc_step": 0, "budget_s": 200, "claims_exhaustive": False, "fuzz_runs": 4000, "fuzz_shards": 2},
+    "thorough": {"shards": 16, "exh_len": 6, "hyp": 6000, "files": 400, "trunc_step": 997, "budget_s": 2400, "claims_exhaustive": False, "fuzz_runs": 400000},
 }
 FLOOR = {"quick": 5000, "thorough": 100000}
 REQUIRED_LABELS = {"quick": ["open-triple-quote", "unbalanced", "continuation", "decorator"], "thorough": []}
@@ -220,7 +220,55 @@ def _minimise(s):
     return s
 
 
-LAYERS = [("exhaustive", layer_exhaustive), ("exhaustive-brackets", layer_exhaustive2), ("hypothesis", layer_hypothesis), ("files", layer_files)]
+# ---- coverage-guided layer (atheris): oracle inside the target, fresh interpreter ------------------------------------
+_FTOK = ALPHA + ALPHA2 + ["\t", "\r", " ", "\\\n", "'''\n", '"""\n', "@deco\n", "def f(a,\n", "):\n", "lambda: ", "if x:\n", "else:\n", "return x\n", "r'", 'b"', "\u00e9"]
+
+
+def _fuzz_decode(data):
+    """first byte picks the reading: UTF-8 text, token indices (structure-aware mutation) or a mix of both."""
+    if not data:
+        return ""
+    mode, rest = data[0], data[1:]
+    if mode % 3 == 0:
+        return rest.decode("utf-8", "replace")
+    if mode % 3 == 1:
+        return "".join(_FTOK[b % len(_FTOK)] for b in rest)
+    # mixed: a printable ASCII byte is the character itself, anything else a token index
+    return "".join(chr(b) if 0x20 <= b <= 0x7E else _FTOK[b % len(_FTOK)] for b in rest)
+
+
+def _fuzz_corpus():
+    seeds = [
+        b"\x00def f(a):\n    \"\"\"doc\"\"\"\n    return a\n",
+        b"\x00class A(object):\n    x: int = 5  # c\n\n    @staticmethod\n    def m(): pass\n",
+        b"\x00x = {1: 2,\n     3: 4}\n'''open",
+        b"\x01" + bytes(range(0, 40)),
+    ]
+    for l in _corpus_lines()[:60]:
+        seeds.append(b"\x00" + l.encode())
+    return seeds
+
+
+FUZZ = {"atheris": (_fuzz_decode, oracle, _fuzz_corpus), "atheris-empty-corpus": (_fuzz_decode, oracle, lambda: [])}
+
+
+def minimise(case):
+    return _minimise(case)
+
+
+def layer_fuzz(ctx):
+    # two kinds of campaign, one from a few small valid inputs and one from the empty corpus (the starting corpus
+    # changes what a coverage-guided search finds); in the quick tier only two shards run one each
+    n = ctx.cfg.get("fuzz_runs", 0)
+    if not n or ctx.shard >= ctx.cfg.get("fuzz_shards", ctx.nshards):
+        return
+    if ctx.shard % 2 == 0:
+        ctx.run_fuzz("atheris", n, with_corpus=True, max_len=200)
+    else:
+        ctx.run_fuzz("atheris-empty-corpus", n, with_corpus=False, max_len=200)
+
+
+LAYERS = [("exhaustive", layer_exhaustive), ("exhaustive-brackets", layer_exhaustive2), ("hypothesis", layer_hypothesis), ("files", layer_files), ("atheris", layer_fuzz)]
 
 
 def replay(case):
